@@ -1,9 +1,130 @@
 import Driver.Json
-open Lean Drv
+import Driver.C12
+import Model.Builders
+import Model.LinSolve
+import Model.Mle
+open Lean Drv Ens Ens.Builders
 
+/-! Driver for C04.  `normalize`/`transpose` run over `Rat` (exact); the stationary vector of
+the row-normalised matrix comes from `LinSolve.stationary`, which returns a vector only with
+an exact residual certificate.  `mle` runs the `Float` instance of `Model.Mle` (Python
+flavour, as `builders.mle` calls `_prinz_mle_py`). -/
 namespace Drv.C04
 
-def handle (op : String) (_req : Json) : Except String Json :=
-  throw s!"bad-op C04.{op}"
+def toMatFn {α} [OfNat α 0] (rows : List (List α)) : Mat α :=
+  fun i j => (rows.getD i []).getD j 0
+
+def checkShape {α} (n : Nat) (rows : List (List α)) : Except String Unit :=
+  if rows.length ≠ n ∨ rows.any (fun r => r.length ≠ n) then throw "shape" else pure ()
+
+def getPrior {α} [OfNat α 0] (get : Json → Except String α) (n : Nat) (req : Json) :
+    Except String (Prior α) := do
+  match fieldOpt req "prior" with
+  | none => pure .none
+  | some (.arr rows) =>
+      let rs ← (rows.toList).mapM (getList get)
+      checkShape n rs
+      pure (.matrix (toMatFn rs))
+  | some j => do let a ← get j; pure (.scalar a)
+
+def ratMatJson (n : Nat) (M : Mat Rat) : Json :=
+  listJson (listJson ratJson) (Mat.toLists n M)
+
+def outJson (n : Nat) (o : Out Rat) : Json :=
+  okJson (Json.mkObj [("C", ratMatJson n o.counts), ("T", ratMatJson n o.probs),
+    ("pi", optJson (fun p => listJson ratJson (tabulate n p)) o.eq)])
+
+def fmtStr : Fmt → String
+  | .csr => "csr" | .csc => "csc" | .coo => "coo" | .lil => "lil"
+  | .dok => "dok" | .dia => "dia" | .bsr => "bsr"
+
+def getFmt (s : String) : Except String Fmt :=
+  match s with
+  | "csr" => pure .csr | "csc" => pure .csc | "coo" => pure .coo | "lil" => pure .lil
+  | "dok" => pure .dok | "dia" => pure .dia | "bsr" => pure .bsr
+  | _ => throw s!"bad format {s}"
+
+def containerStr : Container → String
+  | .ndarray => "ndarray"
+  | .npmatrix => "matrix"
+  | .spmatrix f => fmtStr f ++ "_matrix"
+
+def getContainer (s : String) : Except String Container :=
+  match s with
+  | "ndarray" => pure .ndarray
+  | "matrix" => pure .npmatrix
+  | _ => if s.endsWith "_matrix" then do
+           let f ← getFmt ((s.dropEnd 7).toString); pure (.spmatrix f)
+         else throw s!"bad container {s}"
+
+def handle (op : String) (req : Json) : Except String Json := do
+  match op with
+  | "normalize" =>
+    let n ← getNat (← field req "n")
+    let rows ← getList (getList getRat) (← field req "C")
+    checkShape n rows
+    let prior ← getPrior getRat n req
+    let calcEq ← getBool (← field req "calc")
+    let C : Mat Rat := toMatFn rows
+    let T := rowNormalize n (applyPrior C prior)
+    if calcEq then
+      -- the exact stationary vector plays the role of the eigen-solver's output;
+      -- `normalizeEig` then applies the code's own normalisation
+      match LinSolve.stationary n T with
+      | none => pure (errJson "no-stationary")
+      | some x => pure (outJson n (normalizeBuilder n C prior (some fun i => x.getD i 0)))
+    else pure (outJson n (normalizeBuilder n C prior none))
+  | "transpose" =>
+    let n ← getNat (← field req "n")
+    let rows ← getList (getList getRat) (← field req "C")
+    checkShape n rows
+    let prior ← getPrior getRat n req
+    let calcEq ← getBool (← field req "calc")
+    pure (outJson n (transposeBuilder n (toMatFn rows) prior calcEq))
+  | "mle" =>
+    let n ← getNat (← field req "n")
+    let rows ← getList (getList C12.getF) (← field req "C")
+    checkShape n rows
+    let prior ← getPrior C12.getF n req
+    let calcEq ← getBool (← field req "calc")
+    let tol ← C12.getF (← field req "tol")
+    let maxIter ← getNat (← field req "max_iter")
+    let est : Mat Float → Except Mle.Err (Mat Float × (Nat → Float)) := fun C' =>
+      let Cv : Mle.Mat Float n := Vector.ofFn fun i => Vector.ofFn fun j => C' i.val j.val
+      match Mle.run (C12.params .py tol maxIter) Cv with
+      | .error e => .error e
+      | .ok r =>
+        let Tl := r.T.toList.map Vector.toList
+        let pl := r.pi.toList
+        .ok (fun i j => (Tl.getD i []).getD j 0, fun i => pl.getD i 0)
+    match mleBuilder est (toMatFn rows) prior calcEq with
+    | .error e => pure (errJson (C12.errStr e))
+    | .ok o =>
+      let m (M : Mat Float) := listJson (listJson C12.fJson) (Mat.toLists n M)
+      pure (okJson (Json.mkObj [("C", m o.counts), ("T", m o.probs),
+        ("pi", optJson (fun p => listJson C12.fJson (tabulate n p)) o.eq)]))
+  | "containers" =>
+    let b ← match ← getStr (← field req "builder") with
+      | "normalize" => pure BuilderId.normalize
+      | "transpose" => pure BuilderId.transpose
+      | "mle" => pure BuilderId.mle
+      | s => throw s!"bad builder {s}"
+    let c ← getContainer (← getStr (← field req "container"))
+    let p ← match ← getStr (← field req "prior") with
+      | "none" => pure PriorKind.none
+      | "scalar" => pure PriorKind.scalar
+      | "dense" => pure PriorKind.dense
+      | s => throw s!"bad prior kind {s}"
+    match builderContainers b c p with
+    | .error .valueError => pure (errJson "value-error")
+    | .ok (cC, cT) => pure (okJson (Json.arr #[Json.str (containerStr cC), Json.str (containerStr cT)]))
+  | "scipy_table" =>
+    -- the scipy result types the table assumes, for re-measurement by the harness
+    let c ← getContainer (← getStr (← field req "container"))
+    pure (okJson (Json.mkObj [
+      ("sym", Json.str (containerStr (symContainer c))),
+      ("plus_scalar", Json.str (containerStr (priorContainer c .scalar))),
+      ("plus_dense", Json.str (containerStr (priorContainer c .dense)))]))
+  | _ => throw s!"bad-op C04.{op}"
 
 end Drv.C04
